@@ -252,7 +252,7 @@ def mutate(p, rng, n_edits=2):
                 desc.append('SAVE=' + r[6])
             elif op == 'rule-letter':
                 r = rng.choice(p["rules"][rng.choice(rnames)])
-                r[7] = rng.choice(['-', 'S', 'D', 'WAT', 'DD', 'CAT', 'LONG'])
+                r[7] = rng.choice(['-', 'S', 'D', 'DD', 'ST', 'M', 'W'])   # keeps abbreviations within the 6 characters TZ allows
                 desc.append('LETTER=' + r[7])
             elif op == 'era-stdoff':
                 e = rng.choice(p["zones"][rng.choice(znames)])
